@@ -252,6 +252,7 @@ func checkC02(r *core.Run) {
 	errDiscipline(r, "C02.fail", dedupFns(chain), ids)
 	c02StatusTable(r, a)
 	c02Wrapper(r, a)
+	c02Wrapped(r, a)
 	c02Retry(r, a)
 	r.Floor("C02.order", 2)
 	r.Floor("C02.fail", 8)
@@ -520,5 +521,71 @@ func c02Retry(r *core.Run, a *atWorld) {
 	}
 	if n == 0 {
 		r.Anchor("C02.retry", nil, "retry loop over Backoff.Ongoing in the phase-one report function")
+	}
+}
+
+// c02Wrapped: every statement entry of the AT connection runs its executor inside the implicit-transaction
+// wrapper (the closure handed to it): the executor is chosen by parsing the SQL, not by the entry point, so DML
+// sent through Query needs BEGIN / register / undo log / COMMIT exactly like DML sent through Exec.
+func c02Wrapped(r *core.Run, a *atWorld) {
+	w := r.W
+	if a.atConn == nil || len(a.wrappers) == 0 {
+		return
+	}
+	isWrapper := map[*types.Func]bool{}
+	for _, fn := range a.wrappers {
+		isWrapper[fn.Obj] = true
+	}
+	sqlEx := w.Interface("pkg/datasource/sql/exec", "SQLExecutor")
+	n := 0
+	for _, f := range w.SortedFuncs() {
+		if core.RecvNamed(f.Obj) != a.atConn || w.IsTestFile(f.Decl.Pos()) || f.Decl.Body == nil {
+			continue
+		}
+		info := f.Pkg.TypesInfo
+		var stack []ast.Node
+		ast.Inspect(f.Decl.Body, func(x ast.Node) bool {
+			if x == nil {
+				stack = stack[:len(stack)-1]
+				return true
+			}
+			stack = append(stack, x)
+			c, ok := x.(*ast.CallExpr)
+			if !ok {
+				return true
+			}
+			callee := core.Callee(info, c)
+			if callee == nil || !strings.HasPrefix(callee.Name(), "ExecWith") || sqlEx == nil {
+				return true
+			}
+			if rn := core.RecvNamed(callee); rn == nil || !(types.Identical(rn.Underlying(), sqlEx) || types.Implements(rn, sqlEx) || types.Implements(types.NewPointer(rn), sqlEx)) {
+				if _, isIface := callee.Type().(*types.Signature).Recv().Type().Underlying().(*types.Interface); !isIface {
+					return true
+				}
+			}
+			n++
+			r.Sites++
+			r.Fn(f)
+			inside := false
+			for i := len(stack) - 1; i >= 1; i-- {
+				lit, ok := stack[i].(*ast.FuncLit)
+				if !ok {
+					continue
+				}
+				if outer, ok := stack[i-1].(*ast.CallExpr); ok && isWrapper[core.Callee(info, outer)] {
+					for _, arg := range outer.Args {
+						if ast.Unparen(arg) == ast.Expr(lit) {
+							inside = true
+						}
+					}
+				}
+			}
+			r.Check(inside, "C02.order", core.ShortKey(f.Obj)+" runs its executor inside the implicit-transaction wrapper", w.Pos(c.Pos()), "inside the closure handed to the wrapper",
+				"the statement's executor is called outside the implicit-transaction wrapper: in autocommit mode inside a global transaction a DML statement arriving on this entry point is executed without BEGIN, branch registration, undo log and COMMIT ordering")
+			return true
+		})
+	}
+	if n < 2 {
+		r.Bad("C02.order", "INSTANCE-FLOOR statement entries of the AT connection calling an executor", "", "fewer than the two entries (Exec, Query) confirmed by hand")
 	}
 }
